@@ -451,7 +451,8 @@ def run_dynamic(ctx: Ctx, prog, Sg, info):
                 if not o.get("site") and o.get("via") and o["kind"] == "readonly_error":
                     o["site"] = o["via"]  # raised inside NumPy, directly below this grid frame
                 st = o.get("site") or ""
-                g = (case.func, st.split(":")[1] if st.count(":") >= 2 else "")
+                # one group per (entry point, write site): a listed finding can never hide a write at another site
+                g = (case.func, st)
                 groups.setdefault(g, []).append((case.cid, mode, o, case))
     ctx.count("dynamic_cases", len(cases))
     ctx.count("dynamic_runs", nrun)
@@ -475,7 +476,13 @@ def run_dynamic(ctx: Ctx, prog, Sg, info):
     for g, lst in sorted(groups.items()):
         func, root = g
         lst.sort(key=lambda x: (not (x[2].get("site") or ""), mode_pri.get(x[1], 9), kind_pri.get(x[2]["kind"], 9), x[0]))
+        # representative: the first observation that is not a listed known finding (a known one must not mask a
+        # new failing configuration of the same group)
         cid, mode, o, case = lst[0]
+        for c_, m_, o_, case_ in lst:
+            if not ctx.is_known(f"{c_}|{m_}|{o_['kind']}|{o_.get('what') or ''}", (o_.get("site") or "") or o_["kind"]):
+                cid, mode, o, case = c_, m_, o_, case_
+                break
         kind, site, what = o["kind"], o.get("site") or "", o.get("what") or ""
         entries = [case.func] + list(getattr(case, "also", []) or [])
         may_write = any(not okmap.get(norm_name(n), True) for n in entries)
